@@ -389,12 +389,12 @@ class Analyzer:
 
     def _reassigned_between(self, fn, var_tree, cond_node, use_node):
         """Is the variable assigned at a source position between the condition and the use?"""
-        lo, hi = self.cf._off(cond_node.get("range", {}).get("end")), self.cf._off(use_node.get("range", {}).get("begin"))
+        lo, hi = self.cf.pe(cond_node), self.cf.pb(use_node)
         if lo is None or hi is None:
             return True
         key = self._varkey(fn, var_tree)
         for node, rhs, f in self.assigns.get(key, []):
-            o = self.cf._off(node.get("range", {}).get("begin"))
+            o = self.cf.pb(node)
             if o is not None and lo < o < hi:
                 return True
         return False
@@ -436,7 +436,7 @@ class Analyzer:
                     if self._reassigned_between(fn, t, cnode, node):
                         continue
                 else:
-                    co = self.cf._off(cnode.get("range", {}).get("begin"))
+                    co = self.cf.pb(cnode)
                     if co is None or co <= after:
                         continue
                 if not tr:
@@ -602,11 +602,11 @@ class Analyzer:
             reach = self._reaching(fn, key, items, node)
             if reach is not None:
                 out = BOT
-                u_off = self.cf._off(node.get("range", {}).get("begin"))
+                u_off = self.cf.pb(node)
                 for anode, rhs, afn in reach:
                     c = self.assigned_value(afn, anode, rhs, None)
                     if afn == fn and not c.is_bottom():
-                        a_off = self.cf._off(anode.get("range", {}).get("begin"))
+                        a_off = self.cf.pb(anode)
                         if a_off is not None and u_off is not None and a_off < u_off:
                             c = self.refine(fn, t, c, node, after=a_off)
                     out = join(out, c)
@@ -641,7 +641,7 @@ class Analyzer:
         mine = {id(a[0]): a for a in items if a[2] == fn}
         if not mine:
             return None
-        use_off = self.cf._off(node.get("range", {}).get("begin"))
+        use_off = self.cf.pb(node)
         child, p = node, node.get("_p")
         while p is not None and p.get("kind") != "FunctionDecl":
             if p.get("kind") == "CompoundStmt":
@@ -653,7 +653,7 @@ class Analyzer:
                     if a is not None:
                         best = a
                 if best is not None:
-                    d_off = self.cf._off(best[0].get("range", {}).get("begin"))
+                    d_off = self.cf.pb(best[0])
                     out = [best]
                     loops = []
                     q = node.get("_p")
@@ -662,7 +662,7 @@ class Analyzer:
                             loops.append(q)
                         q = q.get("_p")
                     for a in items:
-                        o = self.cf._off(a[0].get("range", {}).get("begin"))
+                        o = self.cf.pb(a[0])
                         if a is best:
                             continue
                         if a[2] != fn:
@@ -849,11 +849,11 @@ class Analyzer:
                     inline_empty = bool(asg) and all(
                         rhs_ == ("int", 0) or (rhs_[0] == "call" and show(rhs_[1]) == "fifo_add") for _n, rhs_, _f in asg)
                 if (c[0] == "call" and show(c[1]) == "fifo_empty" and not tr) or inline_empty:
-                    lo, hi = self.cf._off(cnode["range"]["end"]), self.cf._off(node["range"]["begin"])
+                    lo, hi = self.cf.pe(cnode), self.cf.pb(node)
                     other = False
                     for n in self.cf.walk(self.cf.func(fn)):
                         if n.get("kind") == "CallExpr" and show(ex(n)[1]) == "fifo_first":
-                            o = self.cf._off(n["range"]["begin"])
+                            o = self.cf.pb(n)
                             if o is not None and lo < o < hi:
                                 other = True
                     if not other:
